@@ -50,3 +50,8 @@ claim("C05", "fault_enumeration", E1,
       "Every evaluation index k of a complete run (set_position + warmup + 4 draws) x 8 fault kinds, plus pairs of faults in a sliding window, for Diag/LowRank NUTS (Euclidean, ExactNormal), Flow NUTS and DiagMclmc (dynamic step size on/off): no panic, unrecoverable error returned by the call that evaluated, trajectory faults reported as divergences, returned position bit-identical to an earlier valid state with its own logp/gradient, finite step size and mass-matrix scales.",
       "Trusted: 2-d Gaussian target; evaluation phases derived from the density's own log and Progress.num_steps; fixed ChaCha8 seed. One open known finding (fault at the step-size re-initialisation inside adapt).",
       "exhaustive fault-position x fault-kind enumeration on the real chains (public API)", "4/C05")
+
+claim("C09", "model_checking", E1,
+      "Explicit-state search over the real GlobalStrategy::adapt (diagonal and low-rank estimators), one call per draw with the explored event {good, not-good, divergent}: every event word for num_tune <= 7 (10 thorough) in lock-step with the reference schedule automaton (window counts, window growth, switch condition, update bookkeeping, step-size search re-run, tuning flag, frozen transformation) and with reference dual averaging of the early/symmetric statistic; BFS with de-duplication on the schedule's own counters up to num_tune 14 (24).",
+      "Trusted: the reference automaton R-schedule written from the property text (c09.rs) and R-dualavg; synthetic collectors built through hook H1; de-duplication key = (draw, foreground, background, window, last_update, has_initial), sound because the schedule code reads nothing else.",
+      "explicit-state BFS/exhaustive word enumeration over the real transition function with canonical-state de-duplication, lock-step reference model", "4/C09")
